@@ -126,7 +126,7 @@ def create_response_mode_response(redirect_uri, params, response_mode):
     elif response_mode == "fragment":
         uri = add_params_to_uri(redirect_uri, params, fragment=True)
     else:
-        raise InvalidRequestError('Invalid "response_mode" value')
+        raise InvalidRequestError("Invalid 'response_mode' value")
 
     return 302, "", [("Location", uri)]
 
